@@ -1050,8 +1050,11 @@ class MarkovChainMonteCarloMethod:
             per_chain_traces = (
                 [None] * n_chain if traces is None else list(_zip_dict(**traces))
             )
-            per_chain_stats = list(
-                _zip_dict(**{k: _zip_dict(**v) for k, v in stats.items()}),
+            per_chain_stats = (
+                # if no transition records statistics there is nothing to zip over
+                [{} for _ in range(n_chain)]
+                if len(stats) == 0
+                else list(_zip_dict(**{k: _zip_dict(**v) for k, v in stats.items()}))
             )
             common_kwargs = {
                 "transitions": self.transitions,
